@@ -128,9 +128,7 @@ func (p c02KeyPred) sql(cfg *c02Config) (string, bool) {
 	case "BETWEEN", "NOT_BETWEEN":
 		hi := p.Hi.lit(cfg)
 		if c02LitLess(hi, lo, cfg.keyType) != p.Rev {
-			if hi != lo || p.Rev {
-				return "", false
-			}
+			return "", false
 		}
 		kw := " BETWEEN "
 		if p.Op == "NOT_BETWEEN" {
@@ -388,9 +386,27 @@ func c02RunKeyGrid(rec *kit.Rec, suite *c02Suite, parsers []*parser.Parser) (*c0
 	return g, nil
 }
 
-// minimalFrom follows failing reductions from a class until no reduction fails. ok=false:
-// neither the class nor anything it reduces to fails on the fixed grid.
-func (g *c02KeyGrid) minimalFrom(c c02KeyClass) ([]c02KeyClass, bool) {
+// hasFail: the class or something it reduces to fails on the fixed grid.
+func (g *c02KeyGrid) hasFail(c c02KeyClass, memo map[c02KeyClass]bool) bool {
+	if v, ok := memo[c]; ok {
+		return v
+	}
+	_, f := g.fails[c]
+	memo[c] = f
+	for _, r := range c.reductions() {
+		if g.hasFail(r, memo) {
+			f = true
+		}
+	}
+	memo[c] = f
+	return f
+}
+
+// minimalFrom returns the 1-minimal failing classes among a class and everything it
+// reduces to (fails, and no reduction of it fails or leads to a failing class).
+// Empty: neither the class nor anything it reduces to fails on the fixed grid.
+func (g *c02KeyGrid) minimalFrom(c c02KeyClass) []c02KeyClass {
+	memo := map[c02KeyClass]bool{}
 	var out []c02KeyClass
 	visited := map[c02KeyClass]bool{}
 	var walk func(c c02KeyClass)
@@ -399,20 +415,19 @@ func (g *c02KeyGrid) minimalFrom(c c02KeyClass) ([]c02KeyClass, bool) {
 			return
 		}
 		visited[c] = true
-		sub := false
+		below := false
 		for _, r := range c.reductions() {
-			before := len(out)
-			walk(r)
-			if _, f := g.fails[r]; f || len(out) > before {
-				sub = true
+			if g.hasFail(r, memo) {
+				below = true
 			}
+			walk(r)
 		}
-		if _, f := g.fails[c]; f && !sub {
+		if _, f := g.fails[c]; f && !below {
 			out = append(out, c)
 		}
 	}
 	walk(c)
-	return out, len(out) > 0
+	return out
 }
 
 func (g *c02KeyGrid) report(rec *kit.Rec, c c02KeyClass) {
@@ -429,8 +444,7 @@ func (g *c02KeyGrid) reportAll(rec *kit.Rec) {
 	sort.Slice(cls, func(i, j int) bool { return cls[i].sig("") < cls[j].sig("") })
 	done := map[c02KeyClass]bool{}
 	for _, c := range cls {
-		mins, _ := g.minimalFrom(c)
-		for _, m := range mins {
+		for _, m := range g.minimalFrom(c) {
 			if !done[m] {
 				done[m] = true
 				g.report(rec, m)
